@@ -474,7 +474,7 @@ impl<'d> UBuilder<'d> {
 
     fn data_quad(&self, gsel: u8, spo: &[u16; 3]) -> (Option<String>, Triple3) {
         let pk = pred_kind(spo[1] as usize);
-        let t = [Tm::Iri(format!("{NS}s{}", spo[0] as usize % N_SUBJ)), pred_tm(pk), obj_for(pk, spo[2] as usize)];
+        let t = [Tm::Iri(format!("{NS}{}", subj_name(spo[0] as usize))), pred_tm(pk), obj_for(pk, spo[2] as usize)];
         let g = match gsel {
             0 | 1 | 2 => None,
             x => Some(GRAPHS[(x as usize - 3) % 3].to_string()),
@@ -504,7 +504,7 @@ impl<'d> UBuilder<'d> {
                 0..=4 if !vars.is_empty() => TT::Var(vars[pick_idx(rt.a, vars.len())].clone()),
                 5 if insert && pos != 1 => TT::BNode(["b", "c"][rt.a as usize % 2].to_string()),
                 _ => match pos {
-                    0 => TT::C(Tm::Iri(format!("{NS}s{}", rt.a as usize % N_SUBJ))),
+                    0 => TT::C(Tm::Iri(format!("{NS}{}", subj_name(rt.a as usize)))),
                     1 => TT::C(pred_tm(pk)),
                     _ => TT::C(obj_for(pk, rt.a as usize / 7)),
                 },
@@ -620,7 +620,7 @@ impl<'d> UBuilder<'d> {
 
 /// Requests that the strict update entry point must refuse (and that must not change the dataset).
 pub fn rejected_text(k: u8, s: u16) -> String {
-    let subj = format!("<{NS}s{}>", s % 5);
+    let subj = format!("<{NS}{}>", subj_name(s as usize));
     match k % 12 {
         0 => format!("INSERT DATA {{ {subj} <{NS}p0> <{NS}o0> "), // unbalanced brace
         1 => format!("INSERT DATA {{ ?x <{NS}p0> <{NS}o0> }}"), // variable in DATA
